@@ -65,6 +65,23 @@ for it in range(N):
     cv = bt.ffn.to_returns(data.loc[now - lb: now]).cov().values
     vol = float(np.sqrt(w.values @ cv @ w.values * 252))
     if abs(vol - tv) > 1e-9: bad("target-vol", got=vol, want=tv)
+    # ... on every call, also when the names change between calls (one algo instance lives for the whole backtest)
+    tvol = A.TargetVol(tv, lookback=lb)
+    for sub in (names[:2], names, names[-2:]):
+        ws = dict(zip(sub, map(float, rs.dirichlet(np.ones(len(sub))))))
+        t = T(data, now, {"weights": dict(ws)}); tvol(t); w = pd.Series(t.temp["weights"])[sub]; evals += 1
+        cvs = bt.ffn.to_returns(data.loc[now - lb: now, sub]).cov().values
+        vol = float(np.sqrt(w.values @ cvs @ w.values * 252))
+        if abs(vol - tv) > 1e-9: bad("target-vol-after-selection-change", got=vol, want=tv, names=list(sub))
+    # ... and with the shrunk covariance estimator the algo offers
+    try:
+        import sklearn.covariance
+        t = T(data, now, {"weights": dict(w0)}); A.TargetVol(tv, lookback=lb, covar_method="ledoit-wolf")(t); w = pd.Series(t.temp["weights"])[names]; evals += 1
+        lw = sklearn.covariance.ledoit_wolf(bt.ffn.to_returns(data.loc[now - lb: now]).dropna())[0]
+        vol = float(np.sqrt(w.values @ lw @ w.values * 252))
+        if abs(vol - tv) > 1e-9: bad("target-vol-ledoit-wolf", got=vol, want=tv)
+    except Exception as e:
+        bad("target-vol-ledoit-wolf-raised", error=repr(e)[:200])
     # PTE trigger: True exactly when tracking-error volatility of current vs target exceeds the cap
     tw_ = pd.DataFrame([list(map(float, rs.dirichlet(np.ones(n_assets))))] * n, index=idx, columns=names)
     posw = rs.dirichlet(np.ones(n_assets))
@@ -74,6 +91,17 @@ for it in range(N):
     diff = posw - tw_.loc[now].values
     pte = float(np.sqrt(diff @ cv @ diff * 252))
     if bool(got) != (pte > capv): bad("pte-trigger", got=bool(got), pte=pte, cap=capv)
+    # ... also when the held names and the target names differ (a target not bought yet, a holding the target frame lacks)
+    if n_assets >= 3:
+        held = names[:-1]; tgt_names = names[1:]
+        tw2 = pd.DataFrame([list(map(float, rs.dirichlet(np.ones(len(tgt_names)))))] * n, index=idx, columns=tgt_names)
+        hw = rs.dirichlet(np.ones(len(held)))
+        t = T(data, now, {}, value=1.0); t.positions = pd.DataFrame([hw / data.loc[now, held].values], index=[now], columns=held)
+        got = A.PTE_Rebalance(capv, tw2, lookback=lb)(t); evals += 1
+        cur = pd.Series(hw, index=held).reindex(names).fillna(0.0).values; tg = tw2.loc[now].reindex(names).fillna(0.0).values
+        diff = cur - tg
+        pte = float(np.sqrt(diff @ cv @ diff * 252))
+        if abs(pte - capv) > 1e-9 and bool(got) != (pte > capv): bad("pte-trigger-on-differing-name-sets", got=bool(got), pte=pte, cap=capv)
     if it < 1: samples.append(dict(assets=n_assets, target_vol=tv, achieved=vol))
 print("JSON:" + json.dumps(dict(evaluations=evals, distinct=len(distinct), failures=fails[:5], samples=samples,
       rule="random return histories (2-5 assets, 80 dates) through the real WeighInvVol / WeighERC / WeighMeanVar shortcuts / WeighRandomly / LimitWeights / LimitDeltas / TargetVol / PTE_Rebalance against their documented relations recomputed with numpy",
